@@ -40,6 +40,11 @@ CHECKS = {
          "Every tip movement must satisfy the reference rule (strictly longer, cumulative burn fee over the diverging segment >=, valid by construction, >= 2 golden tickets in every six-block window) and every delivery completing such a chain must be adopted; tip height is monotone; an orphan changes neither tip nor index. Equal-length, longer-but-lighter and ticket-poor-inside side chains are generated on purpose.",
          "The 'must adopt' direction is asserted only for chains that also satisfy the implementation's extra start-up rule (one ticket in the first five blocks); other cases are counted as unasserted. Orphan deliveries with initial_loading_completed=false are known finding F10b.",
          "DESIGN.md §3 C05"),
+ "C06": ("exploration",
+         "property-based mutation of valid blocks (16 edit kinds on transaction list, signed/unsigned header fields, merkle root, signature, creator) across the wire format, offered to a replica node; oracle from the statement",
+         "For valid blocks at the tip of generated histories every edit of the transaction list or of a signed header field that is not re-signed by the stated creator must be refused; a block accepted under the original hash must carry the original ordered transaction list; a block re-signed by another key must have another hash; the unedited round-tripped block must be accepted.",
+         "Edits of header fields outside the signature are classified, not asserted (the statement does not cover them). Edits that decode to a field-for-field identical block (zeroed merkle root recomputed from unchanged transactions) are discarded as no-ops.",
+         "DESIGN.md §3 C06"),
 }
 NOT_YET = {}
 
